@@ -8,14 +8,15 @@ CONSTANTS MaxC,       \* length constants 0..MaxC in the one-atom family
           ChainCs     \* constants of the two-atom families
 
 RecOps == LenOps \ {"!="}
-NeedsOpt(cls) == \E j \in 1..Len(cls) : \E a \in Range(cls[j]) : a.g \in SameGuards
-Scn(kind, wmt, cls, prim) == [kind |-> kind, opt |-> NeedsOpt(cls), wmt |-> wmt, shape |-> "chain", porder |-> <<>>, impl |-> 0, cls |-> cls, prim |-> prim]
-Dia(kind, shape, cls, prim) == [kind |-> kind, opt |-> NeedsOpt(cls), wmt |-> TRUE, shape |-> shape, porder |-> <<>>, impl |-> 0, cls |-> cls, prim |-> prim]
+NeedsOpt(cls) == \E j \in 1..Len(cls) : \E a \in Range(cls[j]) : a.g \in SameGuards \cup ChainedGuards
+Scn(kind, wmt, cls, prim) == [kind |-> kind, opt |-> NeedsOpt(cls), wmt |-> wmt, shape |-> "chain", porder |-> <<>>, impl |-> 0, twin |-> FALSE, cls |-> cls, prim |-> prim]
+Dia(kind, shape, cls, prim) == [kind |-> kind, opt |-> NeedsOpt(cls), wmt |-> TRUE, shape |-> shape, porder |-> <<>>, impl |-> 0, twin |-> FALSE, cls |-> cls, prim |-> prim]
 LenU(ops, cs, sides, gs) == {LenAtom(op, c, sd, g, "const") : op \in ops, c \in cs, sd \in sides, g \in gs}
 Small(cs) == LenU({"<=", ">=", "=="}, cs, {"L"}, {"none"})
 
 \* D1: one length atom on every kind of value
-D1 == {Scn("str", FALSE, <<<<a>>>>, <<>>) : a \in LenU(LenOps, 0..MaxC, Sides, {"none", "isnone", "other"})}
+D1 == {Scn("str", FALSE, <<<<a>>>>, <<>>) : a \in LenU(LenOps, 0..MaxC, Sides, {"none", "isnone", "other"}) \cup LenU(RecOps, {1, 3}, {"L"}, {"isnone3"})}
+      \cup {Scn("list", FALSE, <<<<a>>>>, <<>>) : a \in LenU({">=", "<="}, {2}, {"L"}, {"isnone3"})}
       \cup {Scn(kind, FALSE, <<<<a>>>>, <<>>) : kind \in {"bytes", "list"}, a \in LenU(LenOps, 0..MaxC, Sides, {"none"})}
       \cup {Scn(kind, FALSE, <<<<>>>>, <<<<a>>>>) : kind \in {"cprim", "listcprim"}, a \in LenU(RecOps, 0..MaxC, Sides, {"none"})}
 \* D2: two length atoms at different places of the chains (tightening, in-lining, list size vs items)
@@ -66,7 +67,16 @@ D8 == {Scn("str", FALSE, <<<<PatAtom(<<p>>, "none")>>>>, <<>>) : p \in ArIds}
       \cup {Scn(kind, FALSE, <<<<>>>>, <<<<PatAtom(<<p>>, "none")>>>>) : kind \in {"cprim", "listcprim"}, p \in ArIds}
       \cup {Scn("str", TRUE, <<<<PatAtom(<<"ar8">>, "none")>>, <<PatAtom(<<p>>, "none")>>>>, <<>>) : p \in {"ar2", "ar3"}}
 
-Families == <<D1, D2, D3, D4, D5, D6, D7, D8>>
+\* D9: the constrained primitive of x is also the type of another property z declared BEFORE x (twin): what the class
+\* says about x must still be enforced although the primitive was already in-lined once
+D9 == { [Scn("cprim", FALSE, cls, <<p>>) EXCEPT !.twin = TRUE] :
+          p \in {<<>>, <<LenAtom("<=", 4, "L", "none", "const")>>},
+          cls \in UNION { {<<<<a>>>>, <<<<>>, <<a>>>>} : a \in Small({1, 3}) \cup {PatAtom(<<"ab">>, "none")} } }
+\* D10: a pattern function written with several statements that re-assigns a building-block variable after using it
+D10 == {Scn("str", FALSE, <<<<PatAtom(<<"abc_re">>, "none")>>>>, <<>>), Scn("cprim", FALSE, <<<<>>>>, <<<<PatAtom(<<"abc_re">>, "none")>>>>),
+        Scn("str", TRUE, <<<<PatAtom(<<"abc_re">>, "none")>>, <<PatAtom(<<"ab">>, "none")>>>>, <<>>)}
+
+Families == <<D1, D2, D3, D4, D5, D6, D7, D8, D9, D10>>
 Scenarios == {S \in UNION {Families[j] : j \in DOMAIN Families} : WellGuarded(S)}
 
 WithCases(S) == LET valid == ValidCases(S)
